@@ -73,7 +73,7 @@ def cleanup_scratch():
 # --------------------------------------------------------------------------
 # serialisation (format of coq/theories/Lib/Data.v)
 # --------------------------------------------------------------------------
-_WORD = re.compile(r"^[A-Za-z_][A-Za-z0-9_.]*$")
+_WORD = re.compile(r"[A-Za-z_][A-Za-z0-9_.]*\Z")
 
 
 def enc(x) -> str:
